@@ -299,11 +299,11 @@ func (r *runner) violate(key, what string, extra map[string]interface{}) {
 		return
 	}
 	d := map[string]interface{}{
-		"text":                   r.t.S,
-		"text_quoted":            strconv.Quote(r.t.S),
-		"text_class":             r.t.Class,
-		"how":                    r.t.How,
-		"known_set":              r.g.Known.Text,
+		"text":                    r.t.S,
+		"text_quoted":             strconv.Quote(r.t.S),
+		"text_class":              r.t.Class,
+		"how":                     r.t.How,
+		"known_set":               r.g.Known.Text,
 		"contains_unlexable_byte": HasUnlexableByte(r.t.S),
 	}
 	for k, v := range extra {
